@@ -7,6 +7,8 @@
    float width in the namespace it is resolved for.                        *)
 EXTENDS Naturals, FiniteSets, Sequences, SequencesExt, Json, IOUtils, TLC
 
+VARIABLE cur      \* the case under examination (one TLC state per case)
+
 Namespaces == {"numpy", "torch", "jax"}
 Widths == {32, 64}
 \* how the user may spell a precision
@@ -24,13 +26,12 @@ CodecCases == {[fn |-> "codec", spelling |-> "native", src |-> a, dst |-> a, wid
                    a \in Namespaces, w \in Widths}
 Cases == ResolveCases \cup ConvertCases \cup CodecCases
 
-PrecisionIsIdentity == \A c \in Cases : c.expect = c.width
-ASSUME PrecisionIsIdentity
+PrecisionIsIdentity == \A c \in {cur} : c.expect = c.width
 ASSUME PrintT(<<"NCASES", Cardinality(Cases)>>)
 ASSUME JsonSerialize(IOEnv.OUT_FILE, SetToSeq(Cases))
 
-VARIABLE dummy
-Init == dummy = 0
-Next == UNCHANGED dummy
-Spec == Init /\ [][Next]_dummy
+\* one TLC state per case: the laws are state invariants evaluated on every case
+Init == cur \in Cases
+Next == UNCHANGED cur
+Spec == Init /\ [][Next]_cur
 =============================================================================
